@@ -148,7 +148,7 @@ Next == /\ Len(prog) < MaxLen
         /\ af' = af
         /\ \E s \in Alphabet : /\ prog' = Append(prog, s)
                                /\ before' = after
-                               /\ after' = IF after.sig = "next" THEN Exec(s, after) ELSE after
+                               /\ after' = IF after.sig = "next" THEN ExecSeq(<<s>>, 1, after) ELSE after
 Spec == Init /\ [][Next]_vars
 
 \* ---- the run, and the run up to the last statement ---------------------------------------------------------------------
